@@ -25,20 +25,24 @@ type runner struct {
 
 type pend struct {
 	tie   *lib.Tie
+	cfg   config
 	seq   []op
 	obs   []stepObs
 	first int
 }
 
-func (rn *runner) do(seq []op, tie *lib.Tie, class string) {
-	obs := runSeq(seq)
-	key := ""
+func (rn *runner) do(cfg config, seq []op, tie *lib.Tie, class string) {
+	obs := runSeq(cfg, seq)
+	key := cfg.line() + "\n"
 	for _, o := range seq {
 		key += o.line() + "\n"
 	}
-	rn.mon.Eval(key, len(seq) > 1, map[string]any{"ops": seq, "last": obs[len(obs)-1].Out})
+	rn.mon.Eval(key, len(seq) > 1, map[string]any{"init": cfg, "ops": seq, "last": obs[len(obs)-1].Out})
 	rn.mon.Count("class:" + class)
-	monitorSeq(rn.mon, seq, obs)
+	if cfg.Active != nil || len(cfg.Modes) > 0 {
+		rn.mon.Count("configured-initial-state")
+	}
+	monitorSeq(rn.mon, cfg, seq, obs)
 	for _, st := range obs {
 		tie.Count("op:" + st.Op.Kind)
 		r := st.Out
@@ -50,12 +54,12 @@ func (rn *runner) do(seq []op, tie *lib.Tie, class string) {
 	if rn.drv == nil {
 		return
 	}
-	rn.lines = append(rn.lines, "reset")
+	rn.lines = append(rn.lines, cfg.line())
 	first := len(rn.lines)
 	for _, o := range seq {
 		rn.lines = append(rn.lines, o.line())
 	}
-	rn.pend = append(rn.pend, pend{tie: tie, seq: seq, obs: obs, first: first})
+	rn.pend = append(rn.pend, pend{tie: tie, cfg: cfg, seq: seq, obs: obs, first: first})
 	if len(rn.lines) > 6000 {
 		rn.flush()
 	}
@@ -74,18 +78,34 @@ func (rn *runner) flush() {
 		return
 	}
 	for _, p := range rn.pend {
-		prefix := ""
+		prefix := p.cfg.line() + "\n"
 		for i, st := range p.obs {
 			prefix += st.Op.line() + "\n"
-			p.tie.Record(prefix, true, map[string]any{"ops": p.seq[:i+1]}, ans[p.first+i], st.Out+" "+st.State)
+			p.tie.Record(prefix, true, map[string]any{"init": p.cfg, "ops": p.seq[:i+1]}, ans[p.first+i], st.Out+" "+st.State)
 		}
 	}
 	rn.lines, rn.pend = nil, nil
 }
 
 // alphabet of the bounded-exhaustive tie: three mode ids (a, b, c), both API levels.
-func alphabet() []op {
+func alphabet(cfg config) []op {
 	a := func(id string, normal bool) *mode { return &mode{ID: id, Title: "t" + id, Normal: normal} }
+	al := baseAlphabet(a)
+	// every Model-API operation that takes an id, with the placeholder active mode's own id ("" by default)
+	p := cfg.placeholderID()
+	al = append(al,
+		op{Kind: "setactive", Mode: &mode{ID: p, Title: "ph", Start: 6}},
+		op{Kind: "change", ID: p},
+		op{Kind: "delete", ID: p},
+		op{Kind: "delete", ID: p, AllowMissing: true},
+		op{Kind: "update", Mode: &mode{ID: p, Title: "ph", Normal: true}},
+		op{Kind: "find", ID: p},
+		op{Kind: "find", ID: "a"},
+	)
+	return al
+}
+
+func baseAlphabet(a func(id string, normal bool) *mode) []op {
 	return []op{
 		{Kind: "add", Mode: a("a", true)},
 		{Kind: "add", Mode: a("b", true)},
@@ -127,14 +147,14 @@ func withNow(seq []op) []op {
 	return out
 }
 
-func (rn *runner) exhaustive(tie *lib.Tie, maxLen int) {
-	al := alphabet()
+func (rn *runner) exhaustive(cfg config, tie *lib.Tie, maxLen int) {
+	al := alphabet(cfg)
 	var rec func(prefix []op)
 	rec = func(prefix []op) {
 		if len(prefix) > 0 {
 			// a sequence covers its prefixes: only maximal ones (or shorter ones at the length bound) are run
 			if len(prefix) == maxLen {
-				rn.do(withNow(prefix), tie, fmt.Sprintf("exhaustive-len-%d", maxLen))
+				rn.do(cfg, withNow(prefix), tie, fmt.Sprintf("exhaustive-len-%d", maxLen))
 				return
 			}
 		}
@@ -241,6 +261,67 @@ func genOp(r *rand.Rand, step int) op {
 		}
 		return op{Kind: "create", Mode: genMode(r, id), Cands: cands(), Now: now}
 	}
+}
+
+// configuredStates are the non-default initial states of the bounded-exhaustive tie (all InitOk:
+// distinct ids, at most one normal mode).
+func configuredStates() []config {
+	return []config{
+		// two initial modes, one normal; the placeholder's id names no mode
+		{Modes: []mode{{ID: "b", Title: "tb"}, {ID: "a", Title: "ta", Normal: true}}, Active: &mode{ID: "boot", Title: "placeholder"}},
+		// the placeholder is a copy of an initial mode
+		{Modes: []mode{{ID: "b", Title: "tb", Normal: true}}, Active: &mode{ID: "b", Title: "tb", Normal: true, Start: 3}},
+		// the placeholder carries the id of a mode that is only added later
+		{Active: &mode{ID: "a", Title: "early"}},
+	}
+}
+
+// genConfig draws an initial state: mostly NewModel(), else up to three initial modes (at most one
+// normal) and a placeholder active mode whose id is "", a fresh id, or the id of a (future) mode.
+func genConfig(r *rand.Rand) config {
+	if r.Intn(5) < 3 {
+		return config{}
+	}
+	var cfg config
+	ids := []string{"a", "b", "c", "ab"}
+	r.Shuffle(len(ids), func(i, j int) { ids[i], ids[j] = ids[j], ids[i] })
+	n := r.Intn(4)
+	normalAt := r.Intn(n + 2)
+	for i := 0; i < n; i++ {
+		m := mode{ID: ids[i], Title: titles[r.Intn(len(titles))], Normal: i == normalAt}
+		if r.Intn(5) == 0 {
+			m.Start = int64(1 + r.Intn(50))
+		}
+		cfg.Modes = append(cfg.Modes, m)
+	}
+	if r.Intn(4) != 0 {
+		p := genMode(r, []string{"", "boot", "a", "b", "c"}[r.Intn(5)])
+		cfg.Active = p
+	}
+	return cfg
+}
+
+// genOpCfg is genOp, except that every so often the id argument is the placeholder's own id or "".
+func genOpCfg(r *rand.Rand, step int, cfg config) op {
+	o := genOp(r, step)
+	if r.Intn(6) != 0 {
+		return o
+	}
+	id := ""
+	if r.Intn(2) == 0 {
+		id = cfg.placeholderID()
+	}
+	switch o.Kind {
+	case "setactive", "update":
+		o.Mode.ID = id
+	case "change", "delete":
+		o.ID = id
+	case "clear":
+		o = op{Kind: "find", ID: id, Now: o.Now}
+	case "s.clear":
+		o = op{Kind: "find", ID: idPool[r.Intn(len(idPool))], Now: o.Now}
+	}
+	return o
 }
 
 // genContended draws from the operations that race on the invariants: several threads trying to
@@ -427,10 +508,10 @@ func main() {
 	rn := &runner{f: f}
 	exLen := f.N(3, 4)
 	ex := res.Tie("electric-exhaustive", "K2",
-		fmt.Sprintf("ALL operation sequences of length %d over a 20-operation alphabet (Model API and both servers; add/create/update with and without masks/delete with and without allow-missing/change/clear/set-active over mode ids a, b, c and one generated id) on a fresh model; after every step the result and the whole observable state (sorted modes, active mode, normal mode) are compared with the Lean model; distinct = distinct operation prefix", exLen))
+		fmt.Sprintf("ALL operation sequences of length <= %d over a 27-operation alphabet (Model API and both servers; add/create/update with and without masks/delete with and without allow-missing/change/clear/set-active/find over mode ids a, b, c, one generated id, and the placeholder active mode's own id — \"\" by default — for every Model-API operation that takes an id) on NewModel(), and all sequences of length <= %d from three configured initial states (WithInitialMode + WithInitialActiveMode: placeholder naming no mode / a copy of an initial mode / the id of a mode added later); after every step the result and the whole observable state (sorted modes, active mode, normal mode) are compared with the Lean model; distinct = distinct (initial state, operation prefix)", exLen, exLen-1))
 	ex.Exhaustive = true
 	tie := res.Tie("electric-random", "K1",
-		"random operation sequences (length 1-40) from one PRNG over 8 ids incl. ids the scripted RNG will generate, random masks (nil, empty, subsets of id/title/normal/start_time, unknown path), both API levels, documented contract panics, id-generation retries and exhaustion; every step's result and whole observable state compared with the Lean model; distinct = distinct operation prefix")
+		"random operation sequences (length 1-40) from one PRNG, 40% of them from a random InitOk configuration (0-3 initial modes, placeholder active mode with id \"\"/fresh/existing/future), over 8 ids incl. ids the scripted RNG will generate plus \"\" and the placeholder's id as arguments, random masks (nil, empty, subsets of id/title/normal/start_time, unknown path), both API levels, documented contract panics, id-generation retries and exhaustion; every step's result and whole observable state compared with the Lean model; distinct = distinct operation prefix")
 	rn.mon = res.Monitor("electric-invariants",
 		"after EVERY step of every sequence on the real model, with plain Go bookkeeping as oracle: I1 at most one normal mode; I2 a delete of the active id fails and keeps the mode; I3 once changed the active id is in modes; clear selects the normal mode / NotFound; a successful switch to a different id stamps start_time = clock now; delete of an absent id = NotFound, or OK with allow-missing; a failed operation changes nothing; no panic other than the two documented contract panics; non-trivial = more than one step")
 	stress := res.Monitor("electric-stress",
@@ -456,26 +537,34 @@ func main() {
 	}
 	r := lib.NewRand(f.Seed)
 	// small first: the first violating input per signature is kept as the replay
-	rn.exhaustive(ex, 1)
-	rn.exhaustive(ex, 2)
+	rn.exhaustive(config{}, ex, 1)
+	rn.exhaustive(config{}, ex, 2)
+	for _, cfg := range configuredStates() {
+		rn.exhaustive(cfg, ex, 1)
+		rn.exhaustive(cfg, ex, 2)
+	}
 	if exLen >= 3 {
-		rn.exhaustive(ex, 3)
+		rn.exhaustive(config{}, ex, 3)
 	}
 	if exLen >= 4 {
-		rn.exhaustive(ex, 4)
+		rn.exhaustive(config{}, ex, 4)
+		for _, cfg := range configuredStates() {
+			rn.exhaustive(cfg, ex, 3)
+		}
 	}
 	rn.flush()
-	rn.do(exhaustedSeq(), tie, "id-exhaustion")
+	rn.do(config{}, exhaustedSeq(), tie, "id-exhaustion")
 	for i := 0; i < f.N(1500, 30000); i++ {
 		n := 1 + r.Intn(12)
 		if i%5 == 0 {
 			n = 1 + r.Intn(40)
 		}
+		cfg := genConfig(r)
 		seq := make([]op, n)
 		for j := range seq {
-			seq[j] = genOp(r, j)
+			seq[j] = genOpCfg(r, j, cfg)
 		}
-		rn.do(seq, tie, "random")
+		rn.do(cfg, seq, tie, "random")
 	}
 	rn.flush()
 	rn.stress(r, stress, f.N(800, 8000))
@@ -492,6 +581,7 @@ func replay(f lib.Flags) int {
 	}
 	b, _ := json.Marshal(rp.Input)
 	var in struct {
+		Init       config   `json:"init"`
 		Ops        []op     `json:"ops"`
 		Goroutines [][]op   `json:"goroutines"`
 		Overlap    *overlap `json:"overlap"`
@@ -521,11 +611,12 @@ func replay(f lib.Flags) int {
 	}
 	m := lib.NewMonitor("replay", "")
 	if len(in.Ops) > 0 {
-		obs := runSeq(in.Ops)
+		fmt.Println("initial state:", in.Init.line())
+		obs := runSeq(in.Init, in.Ops)
 		for i, st := range obs {
 			fmt.Printf("step %d: %s -> %s %s\n", i, st.Op.line(), st.Out, st.State)
 		}
-		monitorSeq(m, in.Ops, obs)
+		monitorSeq(m, in.Init, in.Ops, obs)
 	} else {
 		// a concurrent witness: re-run the same programs a number of times
 		fmt.Println("replay of a concurrent witness: re-running the goroutine programs 200 times")
